@@ -91,7 +91,7 @@ def work(ctx, tier):
         _one(ctx, sc, ENTRIES[i % len(ENTRIES)], stats)
         ctx.inc("sweep_scenarios")
     # whole calls racing in threads on ONE policy object and ONE breaker: each call's record is its own
-    tconc.thread_slice(ctx, tier, common.rng_for(ctx, "threads"), ["breaker", "identity"], budget=False, breaker=True)
+    tconc.thread_slice(ctx, tier, common.rng_for(ctx, "threads"), ["breaker", "identity"], budget=False, breaker=True, long_ops=True)
     common.flush_stats(ctx, stats)
 
 
